@@ -6,6 +6,7 @@ from hypothesis import strategies as st
 
 from .. import netgen, spec as S
 from ..outcome import exc_bucket, fail, inconclusive, passed
+from ..refs import c10_compare as CMP
 
 ID = 'C10'
 LEVEL = 'exploration'
@@ -209,94 +210,15 @@ def check(case):
     if any(b <= a for a, b in zip(allt, allt[1:])):
         return fail('index/not_strictly_increasing', 'concatenated index %s' % allt[:40], tags)
     fullt_all = [int(t) for t in full.times]
-    gfull = [i for i, t in enumerate(fullt_all) if t % hyd == 0]
-    gpart = [i for i, t in enumerate(allt) if t % hyd == 0]
-    fullt = [fullt_all[i] for i in gfull]
-    if [allt[i] for i in gpart] != fullt:
-        missing = sorted(set(fullt) - set(allt))[:8]
-        extra = sorted(set(t for t in allt if t % hyd == 0) - set(fullt))[:8]
-        return fail('index/union_differs', 'hydraulic-grid times missing from the parts: %s, extra: %s (pauses %s)'
-                    % (missing, extra, case['pauses']), tags)
-    # number of partial steps (events) solved up to each compared time: each may move by 1-2 s between the runs
-    nev = np.array([sum(1 for t in fullt_all if t <= T and t % hyd != 0) for T in fullt], dtype=float)
-    full_rows = np.array(gfull, dtype=int)
-    part_rows = np.array(gpart, dtype=int)
-
-    # ---- values
-    def cat(kind, key, name):
-        return np.concatenate([getattr(r, kind)[key][name] for r in parts if len(r.times)])[part_rows]
-
-    def ful(kind, key, name):
-        return getattr(full, kind)[key][name][full_rows]
-
-    tanks = {t['name']: t for t in sp['tanks']}
-    # widening band: two seconds of the largest tank inflow, as head
-    band = 0.0
-    for tn, tk in tanks.items():
-        qmax = float(np.max(np.abs(full.node['demand'][tn]))) if len(fullt_all) else 0.0
-        band = max(band, 2.0 * qmax / S.tank_area(tk))
     first_pause = case['pauses'][0]
-    # thresholds that make a status legitimately ambiguous
-    thr = {}
-    for c in sp['controls']:
-        if c['kind'] == 'cond' and c['node'] in tanks:
-            thr.setdefault(c['node'], []).append(c['thr'])
-
-    def leaves(c):
-        if c[0] in ('and', 'or'):
-            return leaves(c[1]) + leaves(c[2])
-        return [c]
-    for r in case['rules']:
-        for lf in leaves(r['cond']):
-            if lf[0] == 'level':
-                thr.setdefault(lf[1], []).append(lf[3])
-    for tn, tk in tanks.items():
-        thr.setdefault(tn, []).extend([tk['min'], tk['max']])
-
-    def near_threshold(k):
-        for tn, tk in tanks.items():
-            h = ful('node', 'head', tn)
-            dq = ful('node', 'demand', tn)
-            lvl = h[k] - tk['elev']
-            prev = h[k - 1] - tk['elev'] if k > 0 else lvl
-            q = max(abs(dq[k]), abs(dq[k - 1]) if k > 0 else 0.0, float(np.max(np.abs(full.node['demand'][tn]))))
-            b = 2.5 * q / S.tank_area(tk) * (1.0 + nev[k]) + 2e-4
-            for x in thr[tn]:
-                if abs(lvl - x) <= b or abs(prev - x) <= b:
-                    return True
-        return False
-
-    for name, a, b, kind, l in S.links_of(sp):
-        s1 = ful('link', 'status', name)
-        s2 = cat('link', 'status', name)
-        bad = np.nonzero(s1 != s2)[0]
-        if len(bad):
-            k = int(bad[0])
-            if near_threshold(k) or (k + 1 < len(fullt) and near_threshold(k + 1)):
-                return inconclusive('status differs where a tank level is within the event-time band of a threshold', tags)
-            return fail('status/%s' % kind, 't=%d s link %s: status %s uninterrupted vs %s in parts (pauses %s, pickle %s)'
-                        % (fullt[k], name, s1[k], s2[k], case['pauses'], case['pickle']), tags)
-    for kind_, keys, names in (('node', ('head', 'demand', 'leak_demand'), S.node_names(sp)),
-                               ('link', ('flowrate',), [l[0] for l in S.links_of(sp)])):
-        for key in keys:
-            for name in names:
-                v1 = ful(kind_, key, name)
-                v2 = cat(kind_, key, name)
-                hband = band * (1.0 + nev)            # every event so far may have moved by ~2 s of tank flow
-                if key == 'head':
-                    tol = 1e-4 + hband + 1e-5 * np.abs(v1)
-                else:
-                    # flows/demands respond to the head shift: bounded by a share of the largest value of the series
-                    tol = 1e-6 + 1e-5 * np.abs(v1) + np.minimum(1.0, 5.0 * hband) * float(np.max(np.abs(v1))) * 0.1
-                d = np.abs(v1 - v2)
-                bad = np.nonzero(~(d <= tol))[0]
-                if len(bad):
-                    k = int(bad[0])
-                    after = 'after_pause' if fullt[k] > first_pause else 'before_pause'
-                    return fail('value/%s/%s' % (key, after),
-                                't=%d s %s %s: %.9g uninterrupted vs %.9g in parts (diff %.3g, tol %.3g; pauses %s, pickle %s)'
-                                % (fullt[k], key, name, v1[k], v2[k], d[k], tol[k] if hasattr(tol, '__len__') else tol,
-                                   case['pauses'], case['pickle']), tags)
+    res = CMP.compare(sp, case['rules'], full, CMP.Table(parts), what='run in parts')
+    if res is not None:
+        if res[0] == 'inconclusive':
+            return inconclusive(res[1], tags)
+        bucket = res[1]
+        if bucket.startswith('value/'):
+            bucket += '/after_pause' if res[3] > first_pause else '/before_pause'
+        return fail(bucket, res[2] + ' (pauses %s, pickle %s)' % (case['pauses'], case['pickle']), tags)
     # ---- non-triviality
     k0 = sum(1 for t in fullt_all if t <= first_pause)
     later_change = False
@@ -310,6 +232,6 @@ def check(case):
             later_change = True
     if later_change:
         tags.append('state_change_after_pause')
-    if nev[-1] > 10:
+    if CMP.partial_steps(sp, full) > 10:
         tags.append('many_partial_steps(loose_tolerance)')
     return passed(later_change, tags)
